@@ -56,6 +56,12 @@ func (e *FaultSrv) Note(ctx context.Context, tok int) error {
 
 func (e *FaultSrv) Blob(ctx context.Context, b string) error { return nil }
 
+// NoteFail is a notification handler that reports an error (to nobody).
+func (e *FaultSrv) NoteFail(ctx context.Context, tok int) error {
+	e.hit(tok)
+	return fmt.Errorf("note-fail-%d", tok)
+}
+
 func (e *FaultSrv) NoteBoom(ctx context.Context, tok int) error {
 	e.hit(tok)
 	panic("note-boom")
@@ -69,6 +75,7 @@ type BadNoteCli struct {
 	Note     func(ctx context.Context, a, b int) error `notify:"true"`
 	Blob     func(ctx context.Context, n int) error    `notify:"true"`
 	NoteBoom func(ctx context.Context, tok int) error  `notify:"true"`
+	NoteFail func(ctx context.Context, tok int) error  `notify:"true"`
 }
 
 type FaultCli struct {
@@ -468,6 +475,8 @@ func init() {
 				{Name: "ws-desc", Bound: b, V: map[string]int{"ws": 1, "desc": 1}},
 				// notifications that hit the server's error paths, next to the healthy calls
 				{Name: "ws-badnotes", Bound: b, V: map[string]int{"ws": 1, "badnotes": 1}},
+				// the same over HTTP: the reply to each of those requests has an empty body
+				{Name: "http-badnotes", Bound: 0, V: map[string]int{"ws": 0, "badnotes": 1}},
 			}
 		},
 		Body: func(s *vsched.Sched, p Param) {
@@ -489,7 +498,12 @@ func init() {
 			var bad BadNoteCli
 			if p.I("badnotes") == 1 {
 				// same connection kind, own connection: the wire check below covers every link
-				if _, err = w.WS("T", &bad, jsonrpc.WithPingInterval(0), jsonrpc.WithTimeout(0), jsonrpc.WithNoReconnect()); err != nil {
+				if p.I("ws") == 0 {
+					_, err = w.HTTPClient("T", &bad)
+				} else {
+					_, err = w.WS("T", &bad, jsonrpc.WithPingInterval(0), jsonrpc.WithTimeout(0), jsonrpc.WithNoReconnect())
+				}
+				if err != nil {
 					s.Violate("HARNESS: setup: %v", err)
 					return
 				}
@@ -500,11 +514,36 @@ func init() {
 				if p.I("badnotes") == 1 {
 					if v, ok := obs.Get("ret-badnotes"); !ok {
 						s.Violate("C04: notification-tagged calls that hit a server error path never returned; alive: %s", strings.Join(s.Alive(), " "))
-					} else if v != "<nil>/<nil>/<nil>/<nil>" {
+					} else if v != "<nil>/<nil>/<nil>/<nil>/<nil>" {
 						s.Violate("C04: a notification-tagged call yielded something to its caller: %s", v)
 					}
-					if n := srv.Count(74); n != 1 {
-						s.Violate("C04: the (panicking) handler of a notification executed %d times (want exactly 1)", n)
+					for _, tok := range []int{74, 75} {
+						if n := srv.Count(tok); n != 1 {
+							s.Violate("C04: the (panicking / failing) handler of notification %d executed %d times (want exactly 1)", tok, n)
+						}
+					}
+					if p.I("ws") == 0 {
+						// HTTP replies on every link: a notification whose handler ran to completion
+						// (normally or returning an error) gets an empty body. Notifications that the
+						// server rejects before running a handler (unknown method, arity, undecodable
+						// param) or whose handler panics are answered with an error object over HTTP;
+						// C09's statement allows a non-empty reply to a notification-only body, so no
+						// demand is made on those here (DESIGN 5.2).
+						for _, lk := range w.Net.Links {
+							reqs := splitHTTP(string(lk.Wire(vnet.C2S)))
+							resps := splitHTTP(string(lk.Wire(vnet.S2C)))
+							for i, rq := range reqs {
+								if !strings.Contains(rq, `"method"`) || strings.Contains(rq, `"id"`) || i >= len(resps) {
+									continue
+								}
+								if !strings.Contains(rq, `"T.NoteFail"`) && !(strings.Contains(rq, `"T.Note"`) && strings.Contains(rq, `[61]`)) {
+									continue
+								}
+								if body := httpBody(resps[i]); strings.TrimSpace(body) != "" {
+									s.Violate("C04: the HTTP reply to a notification has a body: request %.120q reply body %.200q", httpBody(rq), body)
+								}
+							}
+						}
 					}
 				}
 				for name, tok := range map[string]int{"plain": 60, "notify": 61, "retry": 62} {
@@ -543,7 +582,8 @@ func init() {
 					e2 := bad.Note(context.Background(), 71, 72)
 					e3 := bad.Blob(context.Background(), 73)
 					e4 := bad.NoteBoom(context.Background(), 74)
-					obs.Set("ret-badnotes", "%s/%s/%s/%s", errClass(e1), errClass(e2), errClass(e3), errClass(e4))
+					e5 := bad.NoteFail(context.Background(), 75)
+					obs.Set("ret-badnotes", "%s/%s/%s/%s/%s", errClass(e1), errClass(e2), errClass(e3), errClass(e4), errClass(e5))
 				})
 			}
 		},
@@ -633,4 +673,36 @@ func init() {
 			})
 		},
 	})
+}
+
+// splitHTTP splits the bytes of one direction of a keep-alive HTTP/1.1 connection into messages.
+func splitHTTP(wire string) []string {
+	var out []string
+	for len(wire) > 0 {
+		he := strings.Index(wire, "\r\n\r\n")
+		if he < 0 {
+			out = append(out, wire)
+			break
+		}
+		head := wire[:he+4]
+		n := 0
+		for _, l := range strings.Split(head, "\r\n") {
+			if strings.HasPrefix(strings.ToLower(l), "content-length:") {
+				fmt.Sscanf(strings.TrimSpace(l[len("content-length:"):]), "%d", &n)
+			}
+		}
+		if he+4+n > len(wire) {
+			n = len(wire) - he - 4
+		}
+		out = append(out, wire[:he+4+n])
+		wire = wire[he+4+n:]
+	}
+	return out
+}
+
+func httpBody(msg string) string {
+	if i := strings.Index(msg, "\r\n\r\n"); i >= 0 {
+		return msg[i+4:]
+	}
+	return ""
 }
